@@ -367,6 +367,7 @@ type gate struct {
 	in       *inst
 	mu       sync.Mutex
 	origs    int64
+	nilHdr   int64
 	evs      []*retx
 	checked  int
 	last     byte
@@ -375,6 +376,9 @@ type gate struct {
 
 func (g *gate) Write(h *rtp.Header, p []byte, a interceptor.Attributes) (int, error) {
 	if h == nil {
+		g.mu.Lock()
+		g.nilHdr++
+		g.mu.Unlock()
 		return 0, nil
 	}
 	if a != nil {
@@ -485,11 +489,11 @@ func (sc *scn) classify(q *request) {
 
 // lateSendExplains tells whether a missing retransmission of o coincides with the known
 // defect class "a send older than the window took the ring slot of a newer packet": some
-// packet t' < t with t' = t (mod size) was (possibly) stored after o and o was not sent
-// again afterwards. Used only to choose the signature.
+// packet t' < t with t' = t (mod size) was (possibly) stored after o. Used only to choose
+// the signature.
 func (in *inst) lateSendExplains(o *orig, r1 int64) (int64, bool) {
 	for _, s := range in.sends {
-		if s.t < o.t && (o.t-s.t)%in.size == 0 && s.a1 > o.s0 && s.a0 < r1 && o.lastS0 < s.a1 {
+		if s.t < o.t && (o.t-s.t)%in.size == 0 && s.a1 > o.s0 && s.a0 < r1 {
 			return s.t, true
 		}
 	}
@@ -560,7 +564,14 @@ func (sc *scn) endRound() {
 		in.g.mu.Lock()
 		evs := append([]*retx(nil), in.g.evs[in.g.checked:]...)
 		in.g.checked = len(in.g.evs)
+		nilHdr := in.g.nilHdr
+		in.g.nilHdr = 0
 		in.g.mu.Unlock()
+		if nilHdr > 0 {
+			sc.c.Violation("content/nil-header",
+				"size=%d inst#%d ssrc=%#x: the downstream writer was called %d time(s) with a nil header (a released packet was handed out)\nhistory:\n%s",
+				sc.size, in.id, in.ssrc, nilHdr, sc.tail(12))
+		}
 		for _, ev := range evs {
 			if !ev.exit {
 				sc.c.Violation("liveness/retransmission-still-inside-downstream-write-at-round-end",
